@@ -1,5 +1,819 @@
-From Coq Require Import ZArith List Bool String.
+(* C12 lemmas: all proofs about the REGENERATED units algebra (coq/gen/Gen_units.v, produced
+   from /repo/polymath/units.py by tools/regen/units_ast.py on every run) and the hand-written
+   object-level rules of C12Model.v.  Compiled by harness/c12.py after Gen_units.v and
+   C12Model.v (not in coq/parts: it depends on the regenerated file).
+
+   Method: a semantic function  uval u = (uexp u, qv u : Q, pik u)  and the invariant
+   wf u (positive numerator and denominator, coprime).  The generated operations are shown to
+   be homomorphisms into (Z^3, Q, Z) that preserve wf; wf records are canonical (determined
+   by uval); the algebraic laws follow from the field laws of Q.  Every statement whose
+   conclusion needs the gcd loop to terminate carries "= Ok _" hypotheses or an
+   "\/ = OutOfFuel" alternative (FUEL = 4000 steps of Euclid).
+
+   Labels: U = unbounded, B = bounded-exhaustive by vm_compute (bound in the statement). *)
+From Coq Require Import ZArith List Bool String QArith Qpower Lia Znumtheory.
 From PM Require Import C12Pre.
 From PMGen Require Import Gen_units.
 From PM Require Import C12Model.
-Lemma stub : True. Proof. exact I. Qed.
+Import ListNotations.
+Open Scope Z_scope.
+Global Opaque FUEL.
+
+(* ---------- gcd ---------- *)
+Lemma gcd_nonneg_spec : forall fuel a b g, 0 <= a -> 0 <= b ->
+  gcd fuel a b = Ok g -> g = Z.gcd a b.
+Proof.
+  induction fuel as [|f IH]; intros a b g Ha Hb H; [discriminate|].
+  cbn [gcd] in H.
+  destruct (b =? 0) eqn:E.
+  - apply Z.eqb_eq in E. subst b. cbn [negb] in H. inversion H. subst.
+    rewrite Z.gcd_0_r. symmetry. apply Z.abs_eq. assumption.
+  - cbn [negb] in H. apply Z.eqb_neq in E. unfold pmod in H.
+    destruct (b =? 0) eqn:E2; [apply Z.eqb_eq in E2; contradiction|].
+    cbn [bind] in H.
+    assert (Hm : 0 <= a mod b < b) by (apply Z.mod_pos_bound; lia).
+    apply IH in H; try lia. rewrite H.
+    rewrite Z.gcd_comm. rewrite Z.gcd_mod by lia. apply Z.gcd_comm.
+Qed.
+
+Lemma gcd_pos_spec : forall fuel a b g, 0 < b -> gcd fuel a b = Ok g -> g = Z.gcd a b.
+Proof.
+  intros fuel a b g Hb H. destruct fuel as [|f]; [discriminate|].
+  cbn [gcd] in H.
+  destruct (b =? 0) eqn:E; [apply Z.eqb_eq in E; lia|].
+  cbn [negb] in H. unfold pmod in H. rewrite E in H. cbn [bind] in H.
+  assert (Hm : 0 <= a mod b < b) by (apply Z.mod_pos_bound; lia).
+  apply gcd_nonneg_spec in H; try lia. rewrite H.
+  rewrite Z.gcd_comm. rewrite Z.gcd_mod by lia. apply Z.gcd_comm.
+Qed.
+
+(* gcd never raises and never leaves the integers *)
+Lemma gcd_total : forall fuel a b, 0 < b \/ (0 <= a /\ 0 <= b) ->
+  gcd fuel a b = OutOfFuel \/ exists g, gcd fuel a b = Ok g.
+Proof.
+  induction fuel as [|f IH]; intros a b H; [left; reflexivity|].
+  cbn [gcd]. destruct (b =? 0) eqn:E; cbn [negb].
+  - right. eexists. reflexivity.
+  - unfold pmod. rewrite E. cbn [bind]. apply Z.eqb_neq in E.
+    apply IH. right. assert (0 < b) by lia.
+    pose proof (Z.mod_pos_bound a b H0). lia.
+Qed.
+
+Definition unum (u : units) := t0 (utrip u).
+Definition uden (u : units) := t1 (utrip u).
+Definition pik (u : units) := t2 (utrip u).
+Definition wf (u : units) : Prop := 0 < unum u /\ 0 < uden u /\ Z.gcd (unum u) (uden u) = 1.
+
+Lemma gcd_256 : forall n d, Z.gcd (n * 256) (d * 256) = Z.gcd n d * 256.
+Proof. intros. rewrite Z.gcd_mul_mono_r_nonneg by lia. reflexivity. Qed.
+
+Lemma div_gcd_cross : forall n d, 0 < d -> (n / Z.gcd n d) * d = (d / Z.gcd n d) * n.
+Proof.
+  intros n d Hd. set (g := Z.gcd n d).
+  assert (Hg : 0 < g) by (subst g; pose proof (Z.gcd_nonneg n d);
+    assert (Z.gcd n d <> 0) by (intro E; apply Z.gcd_eq_0_r in E; lia); lia).
+  destruct (Z.gcd_divide_l n d) as [x Hx]. destruct (Z.gcd_divide_r n d) as [y Hy].
+  fold g in Hx, Hy.
+  assert (Hn : n / g = x) by (rewrite Hx; apply Z.div_mul; lia).
+  assert (Hd2 : d / g = y) by (rewrite Hy; apply Z.div_mul; lia).
+  rewrite Hn, Hd2. clearbody g. subst n d. ring.
+Qed.
+
+Lemma gcd_pos : forall n d, 0 < d -> 0 < Z.gcd n d.
+Proof.
+  intros. pose proof (Z.gcd_nonneg n d).
+  assert (Z.gcd n d <> 0) by (intro E; apply Z.gcd_eq_0_r in E; lia). lia.
+Qed.
+
+(* U: Units.__init__ on integer input with a positive denominator: the float fallback is
+   not taken and the triple is the gcd-reduced one *)
+(* the normalisation in Units.__init__, robust against commuted products in the source:
+   numer, denom are any ring-equal forms of 256*n, 256*d; the fallback test any form of
+   numer*d =? denom*n *)
+Ltac init_core H n d Hd :=
+  cbv beta iota zeta delta [t0 t1 t2 fst snd] in H;
+  match type of H with context [gcd FUEL ?x ?y] =>
+    replace x with (n * 256) in H by ring; replace y with (d * 256) in H by ring
+  end;
+  let g := fresh "g" in let G := fresh "G" in let E := fresh "E" in
+  destruct (gcd FUEL (n * 256) (d * 256)) as [g| | |] eqn:G; cbn [bind] in H; try discriminate;
+  apply gcd_pos_spec in G; [|lia]; rewrite gcd_256 in G;
+  pose proof (gcd_pos n d Hd) as Hg;
+  unfold pdiv in H;
+  destruct (g =? 0) eqn:E; [apply Z.eqb_eq in E; lia|]; cbn [bind] in H;
+  subst g; rewrite !Z.div_mul_cancel_r in H by lia;
+  pose proof (div_gcd_cross n d Hd) as Hx;
+  match type of H with context [negb (?a =? ?b)] =>
+    replace (a =? b) with true in H by (symmetry; apply Z.eqb_eq; nia)
+  end;
+  cbn [negb] in H.
+
+Lemma init_spec : forall e n d k u, 0 < d -> Units___init__ e (n, d, k) = Ok u ->
+  uexp u = e /\ utrip u = (n / Z.gcd n d, d / Z.gcd n d, k).
+Proof.
+  intros e n d k u Hd H. unfold Units___init__ in H. init_core H n d Hd.
+  inversion H. split; reflexivity.
+Qed.
+
+Lemma init_fallback_false : forall e n d k b, 0 < d -> Units_init_fallback e (n, d, k) = Ok b -> b = false.
+Proof.
+  intros e n d k b Hd H. unfold Units_init_fallback in H. init_core H n d Hd.
+  inversion H. reflexivity.
+Qed.
+
+Lemma init_total : forall e n d k, 0 < d ->
+  Units___init__ e (n, d, k) = OutOfFuel \/ exists u, Units___init__ e (n, d, k) = Ok u.
+Proof.
+  intros e n d k Hd. unfold Units___init__.
+  cbv beta iota zeta delta [t0 t1 t2 fst snd].
+  match goal with |- context [gcd FUEL ?x ?y] =>
+    replace x with (n * 256) by ring; replace y with (d * 256) by ring end.
+  destruct (gcd_total FUEL (n * 256) (d * 256)) as [G|[g G]]; [left; lia| |].
+  - rewrite G. left. reflexivity.
+  - rewrite G. cbn [bind]. apply gcd_pos_spec in G; [|lia]. rewrite gcd_256 in G.
+    pose proof (gcd_pos n d Hd) as Hg. unfold pdiv.
+    destruct (g =? 0) eqn:E; [apply Z.eqb_eq in E; lia|]. cbn [bind].
+    right. destruct (negb _); eexists; reflexivity.
+Qed.
+
+(* reduced fractions with positive denominators are unique *)
+Lemma reduced_unique : forall n d n' d', 0 < d -> 0 < d' -> Z.gcd n d = 1 -> Z.gcd n' d' = 1 ->
+  n * d' = n' * d -> n = n' /\ d = d'.
+Proof.
+  intros n d n' d' Hd Hd' G G' E.
+  assert (D1 : (d | d')).
+  { apply Z.gauss with n. exists n'. exact E.
+    rewrite Z.gcd_comm. assumption. }
+  assert (D2 : (d' | d)).
+  { apply Z.gauss with n'. exists n. symmetry. exact E.
+    rewrite Z.gcd_comm. assumption. }
+  assert (d = d') by (apply Z.divide_antisym_nonneg; [lia|lia|assumption|assumption]).
+  subst d'. split; [|reflexivity].
+  apply Z.mul_reg_r with d; lia.
+Qed.
+
+Lemma reduce_wf : forall n d, 0 < n -> 0 < d ->
+  0 < n / Z.gcd n d /\ 0 < d / Z.gcd n d /\ Z.gcd (n / Z.gcd n d) (d / Z.gcd n d) = 1.
+Proof.
+  intros n d Hn Hd. pose proof (gcd_pos n d Hd) as Hg.
+  destruct (Z.gcd_divide_l n d) as [x Hx]. destruct (Z.gcd_divide_r n d) as [y Hy].
+  repeat split.
+  - rewrite Hx at 1. rewrite Z.div_mul by lia. nia.
+  - rewrite Hy at 1. rewrite Z.div_mul by lia. nia.
+  - apply Z.gcd_div_gcd; [lia|reflexivity].
+Qed.
+
+(* the rational part of the conversion factor *)
+Definition qv (u : units) : Q := unum u # Z.to_pos (uden u).
+Definition e_add (a b : Z3) : Z3 := (t0 a + t0 b, t1 a + t1 b, t2 a + t2 b).
+Definition e_sub (a b : Z3) : Z3 := (t0 a - t0 b, t1 a - t1 b, t2 a - t2 b).
+Definition e_scale (p : Z) (a : Z3) : Z3 := (p * t0 a, p * t1 a, p * t2 a).
+
+Lemma qmk_eq : forall n d n' d', 0 < d -> 0 < d' ->
+  ((n # Z.to_pos d) == (n' # Z.to_pos d'))%Q <-> n * d' = n' * d.
+Proof.
+  intros. unfold Qeq. cbn [Qnum Qden]. rewrite !Z2Pos.id by assumption. tauto.
+Qed.
+
+Lemma qmk_mul : forall n d n' d', 0 < d -> 0 < d' ->
+  ((n # Z.to_pos d) * (n' # Z.to_pos d') == (n * n') # Z.to_pos (d * d'))%Q.
+Proof.
+  intros. unfold Qeq, Qmult. cbn [Qnum Qden].
+  rewrite Pos2Z.inj_mul. rewrite !Z2Pos.id by nia. reflexivity.
+Qed.
+
+Lemma qmk_reduce : forall n d, 0 < d ->
+  ((n / Z.gcd n d) # Z.to_pos (d / Z.gcd n d) == n # Z.to_pos d)%Q.
+Proof.
+  intros n d Hd. pose proof (gcd_pos n d Hd) as Hg.
+  assert (0 < d / Z.gcd n d).
+  { destruct (Z.gcd_divide_r n d) as [y Hy]. rewrite Hy at 1. rewrite Z.div_mul by lia. nia. }
+  apply qmk_eq; try assumption. rewrite div_gcd_cross by assumption. ring.
+Qed.
+
+Lemma init_sem : forall e n d k u, 0 < n -> 0 < d -> Units___init__ e (n, d, k) = Ok u ->
+  wf u /\ uexp u = e /\ pik u = k /\ (qv u == n # Z.to_pos d)%Q.
+Proof.
+  intros e n d k u Hn Hd H. apply init_spec in H; [|assumption]. destruct H as [He Ht].
+  destruct (reduce_wf n d Hn Hd) as (A & B & C).
+  unfold wf, qv, unum, uden, pik. rewrite Ht. cbv beta iota delta [t0 t1 t2 fst snd].
+  repeat split; try assumption. apply qmk_reduce. assumption.
+Qed.
+
+(* canonical forms: a well-formed record is determined by its meaning *)
+Lemma canon : forall u v, wf u -> wf v -> uexp u = uexp v -> pik u = pik v ->
+  (qv u == qv v)%Q -> u = v.
+Proof.
+  intros [eu [[nu du] ku]] [ev [[nv dv] kv]] (A & B & C) (A' & B' & C') He Hk Hq.
+  unfold wf, qv, unum, uden, pik in *. cbv beta iota delta [t0 t1 t2 fst snd utrip uexp] in *.
+  apply (proj1 (qmk_eq _ _ _ _ B B')) in Hq.
+  destruct (reduced_unique nu du nv dv B B' C C' Hq). subst. reflexivity.
+Qed.
+
+Lemma wf_pos : forall u, wf u -> 0 < unum u /\ 0 < uden u.
+Proof. intros u (A & B & _). split; assumption. Qed.
+
+Lemma mul_unfold : forall a b, Units___mul__ a (AUnits b) =
+  Units___init__ (e_add (uexp a) (uexp b)) (unum a * unum b, uden a * uden b, pik a + pik b).
+Proof. intros. reflexivity. Qed.
+
+Lemma div_unfold : forall a b, Units___truediv__ a (AUnits b) =
+  Units___init__ (e_sub (uexp a) (uexp b)) (unum a * uden b, uden a * unum b, pik a - pik b).
+Proof. intros. reflexivity. Qed.
+
+Lemma mul_sem : forall a b c, wf a -> wf b -> Units___mul__ a (AUnits b) = Ok c ->
+  wf c /\ uexp c = e_add (uexp a) (uexp b) /\ pik c = pik a + pik b /\ (qv c == qv a * qv b)%Q.
+Proof.
+  intros a b c Ha Hb H. rewrite mul_unfold in H.
+  destruct (wf_pos a Ha), (wf_pos b Hb).
+  apply init_sem in H; try nia. destruct H as (W & E & K & Q1).
+  repeat split; try assumption; try apply W.
+  rewrite Q1. unfold qv. symmetry. apply qmk_mul; assumption.
+Qed.
+
+Lemma qmk_div : forall n d n' d', 0 < d -> 0 < d' -> 0 < n' ->
+  ((n # Z.to_pos d) / (n' # Z.to_pos d') == (n * d') # Z.to_pos (d * n'))%Q.
+Proof.
+  intros n d n' d' Hd Hd' Hn'. destruct n' as [|p|p]; try lia.
+  unfold Qdiv, Qinv, Qmult, Qeq. cbn [Qnum Qden].
+  rewrite Pos2Z.inj_mul. rewrite !Z2Pos.id by lia. ring.
+Qed.
+
+Lemma div_sem : forall a b c, wf a -> wf b -> Units___truediv__ a (AUnits b) = Ok c ->
+  wf c /\ uexp c = e_sub (uexp a) (uexp b) /\ pik c = pik a - pik b /\ (qv c == qv a / qv b)%Q.
+Proof.
+  intros a b c Ha Hb H. rewrite div_unfold in H.
+  destruct (wf_pos a Ha), (wf_pos b Hb).
+  apply init_sem in H; try nia. destruct H as (W & E & K & Q1).
+  repeat split; try assumption; try apply W.
+  rewrite Q1. unfold qv. symmetry. apply qmk_div; assumption.
+Qed.
+
+Lemma qv_pos : forall u, wf u -> (0 < qv u)%Q.
+Proof. intros u (A & B & _). unfold qv, Qlt. cbn [Qnum Qden]. lia. Qed.
+Lemma qv_nz : forall u, wf u -> ~ (qv u == 0)%Q.
+Proof. intros u W E. pose proof (qv_pos u W) as P. rewrite E in P. apply Qlt_irrefl in P. assumption. Qed.
+
+(* never Err / Inexact on well-formed operands *)
+Lemma mul_total : forall a b, wf a -> wf b ->
+  Units___mul__ a (AUnits b) = OutOfFuel \/ exists c, Units___mul__ a (AUnits b) = Ok c.
+Proof. intros a b Ha Hb. rewrite mul_unfold. destruct (wf_pos a Ha), (wf_pos b Hb). apply init_total. nia. Qed.
+Lemma div_total : forall a b, wf a -> wf b ->
+  Units___truediv__ a (AUnits b) = OutOfFuel \/ exists c, Units___truediv__ a (AUnits b) = Ok c.
+Proof. intros a b Ha Hb. rewrite div_unfold. destruct (wf_pos a Ha), (wf_pos b Hb). apply init_total. nia. Qed.
+
+(* ---- the algebraic laws ---- *)
+Lemma mul_comm : forall a b, Units___mul__ a (AUnits b) = Units___mul__ b (AUnits a).
+Proof.
+  intros. rewrite !mul_unfold. unfold e_add.
+  rewrite (Z.mul_comm (unum a)), (Z.mul_comm (uden a)), (Z.add_comm (pik a)).
+  rewrite (Z.add_comm (t0 (uexp a))), (Z.add_comm (t1 (uexp a))), (Z.add_comm (t2 (uexp a))).
+  reflexivity.
+Qed.
+
+Lemma e_add_assoc : forall a b c, e_add (e_add a b) c = e_add a (e_add b c).
+Proof. intros. unfold e_add. cbv beta iota delta [t0 t1 t2 fst snd]. f_equal; [f_equal|]; ring. Qed.
+
+Lemma mul_assoc : forall a b c ab bc l r, wf a -> wf b -> wf c ->
+  Units___mul__ a (AUnits b) = Ok ab -> Units___mul__ ab (AUnits c) = Ok l ->
+  Units___mul__ b (AUnits c) = Ok bc -> Units___mul__ a (AUnits bc) = Ok r -> l = r.
+Proof.
+  intros a b c ab bc l r Wa Wb Wc H1 H2 H3 H4.
+  destruct (mul_sem _ _ _ Wa Wb H1) as (Wab & E1 & K1 & Q1).
+  destruct (mul_sem _ _ _ Wab Wc H2) as (Wl & E2 & K2 & Q2).
+  destruct (mul_sem _ _ _ Wb Wc H3) as (Wbc & E3 & K3 & Q3).
+  destruct (mul_sem _ _ _ Wa Wbc H4) as (Wr & E4 & K4 & Q4).
+  apply canon; try assumption.
+  - rewrite E2, E1, E4, E3. apply e_add_assoc.
+  - rewrite K2, K1, K4, K3. ring.
+  - rewrite Q2, Q1, Q4, Q3. ring.
+Qed.
+
+Lemma e_add_sub : forall a b, e_sub (e_add a b) b = a.
+Proof. intros [[x y] z] [[x' y'] z']. unfold e_add, e_sub. cbv beta iota delta [t0 t1 t2 fst snd]. f_equal; [f_equal|]; ring. Qed.
+
+(* a*b/b == a : the very same record, hence Units.__eq__ *)
+Lemma div_cancel : forall a b ab r, wf a -> wf b ->
+  Units___mul__ a (AUnits b) = Ok ab -> Units___truediv__ ab (AUnits b) = Ok r -> r = a.
+Proof.
+  intros a b ab r Wa Wb H1 H2.
+  destruct (mul_sem _ _ _ Wa Wb H1) as (Wab & E1 & K1 & Q1).
+  destruct (div_sem _ _ _ Wab Wb H2) as (Wr & E2 & K2 & Q2).
+  apply canon; try assumption.
+  - rewrite E2, E1. apply e_add_sub.
+  - rewrite K2, K1. ring.
+  - rewrite Q2, Q1. field. apply qv_nz. assumption.
+Qed.
+
+Lemma half_int_double : forall p, half_int (2 * p) = p.
+Proof. intros. unfold half_int. rewrite Z.mul_comm. apply Z.quot_mul. lia. Qed.
+
+Lemma pow_unfold : forall a p, Units___pow__ a (2 * p) =
+  if p >? 0
+  then Units___init__ (e_scale p (uexp a)) (unum a ^ p, uden a ^ p, p * pik a)
+  else Units___init__ (e_scale p (uexp a)) (uden a ^ (- p), unum a ^ (- p), p * pik a).
+Proof.
+  intros a p. unfold Units___pow__. cbn [Units___pow___f]. cbv zeta.
+  rewrite half_int_double. rewrite Z.eqb_refl. cbn [negb].
+  destruct (p >? 0) eqn:E.
+  - assert (0 < p) by (apply Z.gtb_lt; assumption).
+    unfold ppow. destruct (p <? 0) eqn:E2; [apply Z.ltb_lt in E2; lia|].
+    cbn [bind]. reflexivity.
+  - assert (p <= 0) by (destruct (Z.gtb_spec p 0); [discriminate|lia]).
+    unfold ppow. destruct (- p <? 0) eqn:E2; [apply Z.ltb_lt in E2; lia|].
+    cbn [bind]. reflexivity.
+Qed.
+
+Lemma topos_pow : forall (d q : positive), Z.to_pos (Z.pos d ^ Z.pos q) = (d ^ q)%positive.
+Proof. intros. rewrite <- Pos2Z.inj_pow. reflexivity. Qed.
+
+(* U: integer powers *)
+Lemma pow_sem : forall a p c, wf a -> Units___pow__ a (2 * p) = Ok c ->
+  wf c /\ uexp c = e_scale p (uexp a) /\ pik c = p * pik a /\ (qv c == qv a ^ p)%Q.
+Proof.
+  intros a p c Wa H. rewrite pow_unfold in H.
+  destruct Wa as (Hn & Hd & Hg).
+  destruct a as [e [[n d] k]]. unfold unum, uden, pik, qv in *.
+  cbv beta iota delta [t0 t1 t2 fst snd utrip uexp] in *.
+  destruct n as [|n|n]; try lia. destruct d as [|d|d]; try lia.
+  destruct p as [|q|q].
+  - (* p = 0 *) cbn [Z.gtb Z.compare Z.opp] in H. rewrite !Z.pow_0_r in H.
+    apply init_sem in H; try lia. destruct H as (W & E & K & Q1).
+    repeat split; try assumption; try apply W.
+  - (* p > 0 *) cbn [Z.gtb Z.compare] in H.
+    apply init_sem in H; try (apply Z.pow_pos_nonneg; lia). destruct H as (W & E & K & Q1).
+    repeat split; try assumption; try apply W. rewrite Q1.
+    rewrite Qpower_decomp_pos. rewrite topos_pow. cbn [Z.to_pos]. reflexivity.
+  - (* p < 0 *) cbn [Z.gtb Z.compare Z.opp] in H.
+    apply init_sem in H; try (apply Z.pow_pos_nonneg; lia). destruct H as (W & E & K & Q1).
+    repeat split; try assumption; try apply W. rewrite Q1.
+    change (unum {| uexp := e; utrip := (Z.pos n, Z.pos d, k) |}) with (Z.pos n).
+    change (Z.to_pos (uden {| uexp := e; utrip := (Z.pos n, Z.pos d, k) |})) with d.
+    rewrite Qpower_decomp_neg_pos. rewrite topos_pow. reflexivity.
+Qed.
+
+Lemma e_scale_add : forall p q e, e_add (e_scale p e) (e_scale q e) = e_scale (p + q) e.
+Proof. intros p q [[x y] z]. unfold e_add, e_scale. cbv beta iota delta [t0 t1 t2 fst snd]. f_equal; [f_equal|]; ring. Qed.
+
+(* a**p * a**q == a**(p+q) *)
+Lemma pow_add : forall a p q ap aq l r, wf a ->
+  Units___pow__ a (2 * p) = Ok ap -> Units___pow__ a (2 * q) = Ok aq ->
+  Units___mul__ ap (AUnits aq) = Ok l -> Units___pow__ a (2 * (p + q)) = Ok r -> l = r.
+Proof.
+  intros a p q ap aq l r Wa H1 H2 H3 H4.
+  destruct (pow_sem _ _ _ Wa H1) as (W1 & E1 & K1 & Q1).
+  destruct (pow_sem _ _ _ Wa H2) as (W2 & E2 & K2 & Q2).
+  destruct (mul_sem _ _ _ W1 W2 H3) as (W3 & E3 & K3 & Q3).
+  destruct (pow_sem _ _ _ Wa H4) as (W4 & E4 & K4 & Q4).
+  apply canon; try assumption.
+  - rewrite E3, E1, E2, E4. apply e_scale_add.
+  - rewrite K3, K1, K2, K4. ring.
+  - rewrite Q3, Q1, Q2, Q4. symmetry. apply Qpower_plus. apply qv_nz. assumption.
+Qed.
+
+(* break a hypothesis [H : <generated term> = Ok c] into its feasible paths *)
+Ltac break_H H :=
+  repeat (first
+    [ discriminate H
+    | progress cbn [bind fl_int fl_eqb fl_to_Z fl_times_irrational fl_of_Z negb] in H
+    | match type of H with
+      | context [if ?c then _ else _] => let E := fresh "E" in destruct c eqn:E
+      | context [match ?c with FExact _ => _ | FInexact => _ end] => let E := fresh "E" in destruct c eqn:E
+      end ]).
+
+Ltac bool2prop :=
+  repeat match goal with
+  | H : negb _ = false |- _ => apply negb_false_iff in H
+  | H : negb _ = true |- _ => apply negb_true_iff in H
+  | H : (_ && _) = true |- _ => apply andb_true_iff in H; destruct H
+  | H : (_ =? _) = true |- _ => apply Z.eqb_eq in H
+  | H : (_ =? _) = false |- _ => apply Z.eqb_neq in H
+  | H : (_ <=? _) = true |- _ => apply Z.leb_le in H
+  | H : (_ >=? _) = true |- _ => apply Z.geb_le in H
+  | H : (_ <? _) = false |- _ => apply Z.ltb_ge in H
+  | H : FExact _ = FExact _ |- _ => inversion H; clear H
+  | H : Ok _ = Ok _ |- _ => inversion H; clear H
+  end.
+
+Lemma even_half : forall x, x mod 2 = 0 -> 2 * (x / 2) = x.
+Proof. intros x H. pose proof (Z_div_mod_eq_full x 2). lia. Qed.
+
+Lemma sqrt_sem_raw : forall e0 e1 e2 n d k c, 0 < n -> 0 < d ->
+  Units_sqrt (mkU (e0, e1, e2) (n, d, k)) = Ok c ->
+  wf c /\ e_scale 2 (uexp c) = (e0, e1, e2) /\ 2 * pik c = k /\ (qv c * qv c == n # Z.to_pos d)%Q.
+Proof.
+  intros e0 e1 e2 n d k c Hn Hd H.
+  unfold Units_sqrt in H. autounfold with gen_helpers in H.
+  cbv beta iota zeta delta [t0 t1 t2 fst snd utrip uexp np_sqrt] in H.
+  break_H H; bool2prop; subst;
+  match type of H with
+  | Units___init__ _ (?rn, ?rd, _) = Ok _ =>
+      assert (Hrn : 0 < rn) by (pose proof (Z.sqrt_nonneg n); nia);
+      assert (Hrd : 0 < rd) by (pose proof (Z.sqrt_nonneg d); nia);
+      apply init_sem in H; [|assumption|assumption];
+      destruct H as (Wc & Ec & Kc & Qc);
+      (split; [exact Wc|]); (split; [|split])
+  end.
+  all: try (rewrite Ec; unfold e_scale; cbv beta iota delta [t0 t1 t2 fst snd];
+            rewrite !even_half by assumption; reflexivity).
+  all: try lia.
+  all: try (rewrite Qc; rewrite qmk_mul by assumption; apply qmk_eq; [nia|assumption|]; nia).
+Qed.
+
+Lemma sqrt_sem : forall a c, wf a -> Units_sqrt a = Ok c ->
+  wf c /\ e_scale 2 (uexp c) = uexp a /\ 2 * pik c = pik a /\ (qv c * qv c == qv a)%Q.
+Proof.
+  intros [[[e0 e1] e2] [[n d] k]] c (Hn & Hd & _) H.
+  exact (sqrt_sem_raw e0 e1 e2 n d k c Hn Hd H).
+Qed.
+
+Lemma sq_inj_pos : forall x y, 0 < x -> 0 < y -> x * x = y * y -> x = y.
+Proof.
+  intros x y Hx Hy H. assert (E : (x - y) * (x + y) = 0) by (ring_simplify; lia).
+  apply Z.mul_eq_0 in E. lia.
+Qed.
+
+Lemma e_double : forall a b, e_scale 2 a = e_add b b -> a = b.
+Proof.
+  intros [[x y] z] [[x' y'] z']. unfold e_scale, e_add. cbv beta iota delta [t0 t1 t2 fst snd].
+  intro H.
+  assert (H1 : 2 * x = x' + x') by (exact (f_equal t0 H)).
+  assert (H2 : 2 * y = y' + y') by (exact (f_equal t1 H)).
+  assert (H3 : 2 * z = z' + z') by (exact (f_equal t2 H)).
+  f_equal; [f_equal|]; lia.
+Qed.
+
+(* sqrt(a*a) == a : the same record *)
+Lemma sqrt_sq : forall a aa r, wf a ->
+  Units___mul__ a (AUnits a) = Ok aa -> Units_sqrt aa = Ok r -> r = a.
+Proof.
+  intros a aa r Wa H1 H2.
+  destruct (mul_sem _ _ _ Wa Wa H1) as (Waa & E1 & K1 & Q1).
+  destruct (sqrt_sem _ _ Waa H2) as (Wr & E2 & K2 & Q2).
+  apply canon; try assumption.
+  - apply e_double. rewrite E2, E1. reflexivity.
+  - lia.
+  - rewrite Q1 in Q2. destruct Wr as (A & B & _). destruct Wa as (A' & B' & _).
+    unfold qv in *. rewrite !qmk_mul in Q2 by assumption.
+    assert (P1 : 0 < uden r * uden r) by nia.
+    assert (P2 : 0 < uden a * uden a) by nia.
+    apply (proj1 (qmk_eq _ _ _ _ P1 P2)) in Q2.
+    apply qmk_eq; try assumption.
+    apply sq_inj_pos; try nia.
+Qed.
+
+Lemma mod2_double : forall x, (2 * x) mod 2 = 0.
+Proof. intros. rewrite Z.mul_comm. apply Z.mod_mul. lia. Qed.
+Lemma div2_double : forall x, (2 * x) / 2 = x.
+Proof. intros. rewrite Z.mul_comm. apply Z.div_mul. lia. Qed.
+
+(* ... and the square root of a square is never refused and never leaves the integers *)
+Lemma sqrt_of_square_total : forall x y z n d k, 0 < n -> 0 < d ->
+  Units_sqrt (mkU (2 * x, 2 * y, 2 * z) (n * n, d * d, 2 * k)) = Units___init__ (x, y, z) (n, d, k).
+Proof.
+  intros x y z n d k Hn Hd.
+  unfold Units_sqrt. autounfold with gen_helpers.
+  cbv beta iota zeta delta [t0 t1 t2 fst snd utrip uexp np_sqrt].
+  rewrite ?Z.geb_leb.
+  rewrite !mod2_double, !div2_double. rewrite !Z.sqrt_square by lia.
+  replace (0 <=? n * n) with true by (symmetry; apply Z.leb_le; nia).
+  replace (0 <=? d * d) with true by (symmetry; apply Z.leb_le; nia).
+  replace (n * n <? 0) with false by (symmetry; apply Z.ltb_ge; nia).
+  replace (d * d <? 0) with false by (symmetry; apply Z.ltb_ge; nia).
+  rewrite !Z.eqb_refl.
+  cbn [andb negb bind fl_int fl_eqb fl_to_Z fl_of_Z].
+  rewrite ?Z.eqb_refl. cbn [andb negb bind fl_int fl_eqb fl_to_Z fl_of_Z].
+  reflexivity.
+Qed.
+
+(* ---- conversion between units of the same dimension ---- *)
+Lemma e_sub_self : forall a, e_sub a a = (0, 0, 0).
+Proof. intros [[x y] z]. unfold e_sub. cbv beta iota delta [t0 t1 t2 fst snd]. f_equal; [f_equal|]; ring. Qed.
+
+Lemma convert_exact : forall a b c, wf a -> wf b -> Units___truediv__ a (AUnits b) = Ok c ->
+  (qv c == qv a / qv b)%Q /\ pik c = pik a - pik b /\ (uexp a = uexp b -> uexp c = (0, 0, 0)).
+Proof.
+  intros a b c Wa Wb H. destruct (div_sem _ _ _ Wa Wb H) as (_ & E & K & Q1).
+  repeat split; try assumption. intro Eq. rewrite E, Eq. apply e_sub_self.
+Qed.
+
+(* ---- copy ---- *)
+Lemma copy_id : forall a r, wf a -> Units_copy a = Ok r -> r = a.
+Proof.
+  intros [e [[n d] k]] r (Hn & Hd & Hg) H. unfold Units_copy, Units___copy__ in H.
+  cbv beta iota delta [uexp utrip] in H. unfold unum, uden in *.
+  cbv beta iota delta [t0 t1 t2 fst snd utrip] in *.
+  apply init_spec in H; [|assumption]. destruct H as [He Ht].
+  rewrite Hg in Ht. rewrite !Z.div_1_r in Ht. destruct r as [er tr]. cbv beta iota delta [uexp utrip] in *.
+  subst. reflexivity.
+Qed.
+
+(* ---- compatibility predicates ---- *)
+Lemma z3_eqb_eq : forall a b, z3_eqb a b = true <-> a = b.
+Proof.
+  intros [[x y] z] [[x' y'] z']. unfold z3_eqb. cbv beta iota delta [t0 t1 t2 fst snd].
+  rewrite !andb_true_iff, !Z.eqb_eq. split.
+  - intros [[A B] C]. subst. reflexivity.
+  - intro H. inversion H. auto.
+Qed.
+
+Lemma z3_eqb_sym : forall a b, z3_eqb a b = z3_eqb b a.
+Proof.
+  intros [[x y] z] [[x' y'] z']. unfold z3_eqb. cbv beta iota delta [t0 t1 t2 fst snd].
+  rewrite (Z.eqb_sym x), (Z.eqb_sym y), (Z.eqb_sym z). reflexivity.
+Qed.
+(* closes a goal that holds by computation up to the orientation of the == tests in the source *)
+Ltac refl_sym := first [ reflexivity | rewrite z3_eqb_sym; reflexivity
+                       | rewrite (z3_eqb_sym _ (0, 0, 0)), (z3_eqb_sym _ (0, 0, 1)); reflexivity
+                       | rewrite (z3_eqb_sym _ (0, 0, 0)); reflexivity ].
+
+Definition oexp (o : option units) : Z3 := match o with Some u => uexp u | None => (0, 0, 0) end.
+
+Lemma unitless_value : U_UNITLESS = Ok (mkU (0, 0, 0) (1, 1, 0)).
+Proof. vm_compute. reflexivity. Qed.
+
+Lemma match_rules :
+  (forall b, Units_can_match None b = Ok true) /\
+  (forall a, Units_can_match a None = Ok true) /\
+  (forall a b, Units_can_match (Some a) (Some b) = Ok (z3_eqb (uexp a) (uexp b))) /\
+  (forall a b, Units_do_match a b = Ok (z3_eqb (oexp a) (oexp b))) /\
+  (forall a, Units_is_angle a = Ok (z3_eqb (oexp a) (0, 0, 0) || z3_eqb (oexp a) (0, 0, 1))) /\
+  (forall a, Units_is_unitless a = Ok (z3_eqb (oexp a) (0, 0, 0))).
+Proof.
+  split; [|split; [|split; [|split; [|split]]]].
+  - intros [b|]; reflexivity.
+  - intros [a|]; reflexivity.
+  - intros; refl_sym.
+  - intros [a|] [b|]; unfold Units_do_match; rewrite ?unitless_value; refl_sym.
+  - intros [a|]; refl_sym.
+  - intros [a|]; refl_sym.
+Qed.
+
+Lemma require_rules : forall a b,
+  Units_require_compatible a b = (if match Units_can_match a b with Ok c => c | _ => false end then Ok tt else Err EValue) /\
+  Units_require_angle a = (if z3_eqb (oexp a) (0, 0, 0) || z3_eqb (oexp a) (0, 0, 1) then Ok tt else Err EValue) /\
+  Units_require_unitless a = (if z3_eqb (oexp a) (0, 0, 0) then Ok tt else Err EValue).
+Proof.
+  intros a b. destruct match_rules as (M1 & M2 & M3 & M4 & M5 & M6). repeat split.
+  - unfold Units_require_compatible. destruct a as [a|], b as [b|]; rewrite ?M1, ?M2, ?M3; reflexivity.
+  - unfold Units_require_angle. rewrite M5. reflexivity.
+  - unfold Units_require_unitless. rewrite M6. reflexivity.
+Qed.
+
+(* ---- object-level rules ---- *)
+Definition compatible (a b : option units) : bool :=
+  match a, b with Some x, Some y => z3_eqb (uexp x) (uexp y) | _, _ => true end.
+
+Lemma can_match_compatible : forall a b, Units_can_match a b = Ok (compatible a b).
+Proof. intros [a|] [b|]; cbn [compatible]; refl_sym. Qed.
+
+Lemma object_rules_compat : forall a b,
+  obj_rule OAdd a b = (if compatible a b then obs_of_ounits (Ok (or_units a b)) else OErr EValue) /\
+  obj_rule OOrder a b = (if compatible a b then ONone else OErr EValue) /\
+  obj_rule OAtan2 a b = (if compatible a b then ONone else OErr EValue) /\
+  obj_rule OEq a b = OBool (compatible a b).
+Proof.
+  intros a b. unfold obj_rule, Units_require_compatible. rewrite can_match_compatible.
+  cbn [bind obs_of_bool]. destruct (compatible a b); repeat split; reflexivity.
+Qed.
+
+Lemma object_rules_fn : forall a,
+  obj_rule OAngleFn a None =
+    (if z3_eqb (oexp a) (0, 0, 0) || z3_eqb (oexp a) (0, 0, 1) then ONone else OErr EValue) /\
+  obj_rule OPureFn a None = (if z3_eqb (oexp a) (0, 0, 0) then ONone else OErr EValue) /\
+  obj_rule OKeep a None = obs_of_ounits (Ok a) /\
+  obj_rule ONoUnits a None = (match a with Some _ => OErr EType | None => ONone end).
+Proof.
+  intros a. destruct (require_rules a None) as (_ & R2 & R3).
+  unfold obj_rule. rewrite R2, R3. repeat split;
+  try (destruct (_ || _); reflexivity); try (destruct (z3_eqb _ _); reflexivity).
+Qed.
+
+Lemma object_rules_mul : forall a b,
+  obj_rule OMul (Some a) (Some b) = obs_of_units (Units___mul__ a (AUnits b)) /\
+  obj_rule ODiv (Some a) (Some b) = obs_of_units (Units___truediv__ a (AUnits b)) /\
+  obj_rule OMul None None = ONone /\ obj_rule ODiv None None = ONone /\
+  obj_rule ODiv None (Some b) = obs_of_units (Units___pow__ b (2 * -1)) /\
+  (forall p2, p2 <> 0 -> obj_rule (OPow p2) (Some a) None = obs_of_units (Units___pow__ a p2)) /\
+  (forall p2, obj_rule (OPow p2) None None = ONone) /\
+  obj_rule OSqrt (Some a) None = obs_of_units (Units_sqrt a) /\
+  obj_rule OSqrt None None = ONone.
+Proof.
+  intros a b. unfold obj_rule, mul_units_m, div_units_m, Units_mul_units, Units_div_units,
+    Units_units_power, Units_sqrt_units. cbn [is_some is_none negb andb].
+  cbn [Z.opp].
+  repeat split; intros;
+    try (destruct (p2 =? 0) eqn:E; [apply Z.eqb_eq in E; try contradiction; reflexivity|]);
+    try match goal with |- context [bind ?x _] => destruct x end; reflexivity.
+Qed.
+
+(* one operand without units: the other operand's units, as the same record *)
+Lemma object_rules_mul_none : forall a o, wf a ->
+  (obj_rule OMul (Some a) None = o \/ obj_rule OMul None (Some a) = o \/ obj_rule ODiv (Some a) None = o) ->
+  o = OUnits (uexp a) (utrip a) \/ o = OFuel.
+Proof.
+  intros a o Wa H. unfold obj_rule, mul_units_m, div_units_m, Units_mul_units, Units_div_units in H.
+  cbn [is_some is_none negb andb] in H.
+  assert (X : obs_of_ounits (bind (Units_copy a) (fun r => Ok (Some r))) = o) by (destruct H as [H|[H|H]]; exact H).
+  clear H.
+  assert (T : Units_copy a = OutOfFuel \/ exists c, Units_copy a = Ok c).
+  { unfold Units_copy, Units___copy__. destruct a as [e [[n d] k]]. apply init_total. apply Wa. }
+  destruct T as [T|[c T]]; rewrite T in X; cbn [bind obs_of_ounits] in X.
+  - right. symmetry. exact X.
+  - left. apply copy_id in T; [|assumption]. subst. reflexivity.
+Qed.
+
+(* ---- stored values ---- *)
+Lemma values_untouched : forall u q vals der,
+  vvals (set_units_v u q) = vvals q /\ vderiv (set_units_v u q) = vderiv q /\
+  vvals (without_units_v q) = vvals q /\ vderiv (without_units_v q) = vderiv q /\
+  vvals (ctor_v vals der u) = vals /\ vderiv (ctor_v vals der u) = der /\
+  vunits (set_units_v u q) = u /\ vunits (without_units_v q) = None.
+Proof. intros. repeat split. Qed.
+
+Lemma inj_pos_nz : forall n, 0 < n -> ~ (inject_Z n == 0)%Q.
+Proof. intros n Hn E. unfold Qeq in E. cbn in E. lia. Qed.
+
+Section Conversion.
+  Local Open Scope Q_scope.
+  Variable pi : Q.
+  Hypothesis pi_nonzero : ~ (pi == 0)%Q.
+
+  Lemma qfactor_nz : forall x, wf x -> ~ (qfactor pi x == 0)%Q.
+  Proof.
+    intros x (Hn & Hd & _). unfold qfactor. fold (unum x) (uden x).
+    pose proof (inj_pos_nz _ Hn) as A. pose proof (inj_pos_nz _ Hd) as B.
+    pose proof (Qpower_not_0 pi (t2 (utrip x)) pi_nonzero) as C.
+    intro E. apply Qmult_integral in E. destruct E as [E|E]; [|contradiction].
+    apply A. rewrite <- (Qmult_div_r (inject_Z (unum x)) (inject_Z (uden x))) by assumption.
+    rewrite E. ring.
+  Qed.
+
+  Lemma ofactor_nz : forall u, (forall x, u = Some x -> wf x) -> ~ (ofactor pi u == 0)%Q.
+  Proof.
+    intros [x|] W; cbn [ofactor].
+    - apply qfactor_nz. apply W. reflexivity.
+    - discriminate.
+  Qed.
+
+  (* from_units (into_units q) == q and into_units (from_units q) == q, element by element,
+     for values and derivatives alike (both are scaled by the same factor) *)
+  Lemma conversion_inverse : forall q, (forall x, vunits q = Some x -> wf x) ->
+    Forall2 Qeq (vvals (from_units_v pi (into_units_v pi q))) (vvals q) /\
+    Forall2 Qeq (vderiv (from_units_v pi (into_units_v pi q))) (vderiv q) /\
+    Forall2 Qeq (vvals (into_units_v pi (from_units_v pi q))) (vvals q) /\
+    Forall2 Qeq (vderiv (into_units_v pi (from_units_v pi q))) (vderiv q) /\
+    vunits (from_units_v pi (into_units_v pi q)) = vunits q.
+  Proof.
+    intros [vals der u] W. cbn [vunits vvals vderiv] in *.
+    pose proof (ofactor_nz u W) as NZ.
+    unfold from_units_v, into_units_v. cbn [vunits vvals vderiv].
+    rewrite !map_map.
+    assert (A : forall l, Forall2 Qeq (map (fun x => ofactor pi u * (/ ofactor pi u * x)) l) l).
+    { induction l as [|h t IH]; constructor; [field; assumption|assumption]. }
+    assert (B : forall l, Forall2 Qeq (map (fun x => / ofactor pi u * (ofactor pi u * x)) l) l).
+    { induction l as [|h t IH]; constructor; [field; assumption|assumption]. }
+    repeat split; auto.
+  Qed.
+
+  Lemma conversion_same_factor : forall q,
+    vvals (into_units_v pi q) = map (Qmult (/ ofactor pi (vunits q))) (vvals q) /\
+    vderiv (into_units_v pi q) = map (Qmult (/ ofactor pi (vunits q))) (vderiv q) /\
+    vvals (from_units_v pi q) = map (Qmult (ofactor pi (vunits q))) (vvals q) /\
+    vderiv (from_units_v pi q) = map (Qmult (ofactor pi (vunits q))) (vderiv q).
+  Proof. intros. repeat split. Qed.
+End Conversion.
+
+(* ---- the named table and expressions over it ---- *)
+Definition wfb (u : units) : bool :=
+  (0 <? unum u) && (0 <? uden u) && (Z.gcd (unum u) (uden u) =? 1).
+Lemma wfb_wf : forall u, wfb u = true -> wf u.
+Proof.
+  intros u H. unfold wfb in H. apply andb_true_iff in H. destruct H as [H C].
+  apply andb_true_iff in H. destruct H as [A B].
+  apply Z.ltb_lt in A. apply Z.ltb_lt in B. apply Z.eqb_eq in C. repeat split; assumption.
+Qed.
+
+Definition named_ok (r : string * (Z3 * Z3 * string)) : bool :=
+  match named_value (fst r) with
+  | Ok u => wfb u && z3_eqb (uexp u) (fst (fst (snd r))) && z3_eqb (utrip u) (snd (fst (snd r)))
+  | _ => false
+  end.
+
+(* B (the whole table): every named unit is present, normalised, equal to its literal *)
+Lemma named_all_ok : forallb named_ok named_table = true.
+Proof. vm_compute. reflexivity. Qed.
+
+Lemma named_wf : forall n u, named_value n = Ok u -> wf u.
+Proof.
+  intros n u H. unfold named_value in H.
+  destruct (find (fun r => String.eqb (fst r) n) named_table) as [r|] eqn:F; [|discriminate].
+  pose proof (find_some _ _ F) as [I E]. apply String.eqb_eq in E.
+  pose proof named_all_ok as A. rewrite forallb_forall in A. specialize (A r I).
+  unfold named_ok in A. rewrite E in A. unfold named_value in A. rewrite F in A.
+  destruct r as [nm [[e t] s]]. rewrite H in A.
+  apply andb_true_iff in A. destruct A as [A _]. apply andb_true_iff in A. destruct A as [A _].
+  apply wfb_wf. assumption.
+Qed.
+
+(* U: every unit built from the named table by products, quotients, integer powers and
+   square roots is well-formed, so all the laws above apply to it *)
+Lemma ueval_wf : forall x u, ueval x = Ok u -> wf u.
+Proof.
+  induction x as [n|a IHa b IHb|a IHa b IHb|a IHa p|a IHa]; intros u H; cbn [ueval] in H.
+  - apply named_wf with n. assumption.
+  - destruct (ueval a) as [ua| | |]; try discriminate. destruct (ueval b) as [ub| | |]; try discriminate.
+    cbn [bind] in H. apply mul_sem in H; auto. apply H.
+  - destruct (ueval a) as [ua| | |]; try discriminate. destruct (ueval b) as [ub| | |]; try discriminate.
+    cbn [bind] in H. apply div_sem in H; auto. apply H.
+  - destruct (ueval a) as [ua| | |]; try discriminate. cbn [bind] in H.
+    apply pow_sem in H; auto. apply H.
+  - destruct (ueval a) as [ua| | |]; try discriminate. cbn [bind] in H.
+    apply sqrt_sem in H; auto. apply H.
+Qed.
+
+(* ---- alias facts regenerated from the text of the static helpers ---- *)
+Lemma alias_facts :
+  attr_assign_guarded_mul_units = true /\ attr_assign_guarded_div_units = true /\
+  attr_assign_guarded_sqrt_units = true /\ attr_assign_guarded_units_power = true.
+Proof. repeat split; reflexivity. Qed.
+
+(* ---- B: the property's own quantifier, decided inside Coq on the regenerated table ---- *)
+Definition named_units_list : list units :=
+  flat_map (fun r => match named_value (fst r) with Ok u => [u] | _ => [] end) named_table.
+Fixpoint dedup (l : list units) : list units :=
+  match l with
+  | [] => []
+  | u :: t => if existsb (units_eqb u) t then dedup t else u :: dedup t
+  end.
+(* one representative per distinct value (synonyms such as KM / KILOMETER are the same record) *)
+Definition distinct_units : list units := dedup named_units_list.
+
+Lemma units_eqb_eq : forall a b, units_eqb a b = true -> a = b.
+Proof.
+  intros [ea ta] [eb tb] H. unfold units_eqb in H. cbn [uexp utrip] in H.
+  apply andb_true_iff in H. destruct H as [A B].
+  apply z3_eqb_eq in A. apply z3_eqb_eq in B. subst. reflexivity.
+Qed.
+Lemma dedup_covers : forall l u, In u l -> In u (dedup l).
+Proof.
+  induction l as [|h t IH]; intros u H; [destruct H|].
+  cbn [dedup]. destruct (existsb (units_eqb h) t) eqn:E.
+  - destruct H as [H|H]; [|apply IH; assumption].
+    subst h. apply existsb_exists in E. destruct E as [v [Iv Ev]].
+    apply units_eqb_eq in Ev. subst v. apply IH. assumption.
+  - destruct H as [H|H]; [left; assumption|right; apply IH; assumption].
+Qed.
+
+Definition umul (a b : units) := Units___mul__ a (AUnits b).
+Definition udiv (a b : units) := Units___truediv__ a (AUnits b).
+Definition upow (a : units) (p : Z) := Units___pow__ a (2 * p).
+Definition ok_eq (r : res units) (u : units) : bool :=
+  match r with Ok v => units_eqb v u | _ => false end.
+
+Definition pair_ok (a b : units) : bool :=
+  match umul a b, umul b a, udiv a b with
+  | Ok ab, Ok ba, Ok q => units_eqb ab ba && ok_eq (udiv ab b) a && ok_eq (umul q b) a
+  | _, _, _ => false
+  end.
+Definition triple_ok (a b c : units) : bool :=
+  match umul a b, umul b c with
+  | Ok ab, Ok bc =>
+      match umul ab c, umul a bc with Ok l, Ok r => units_eqb l r | _, _ => false end
+  | _, _ => false
+  end.
+Definition prange : list Z := [-3; -2; -1; 0; 1; 2; 3].
+Definition pow_ok (a : units) : bool :=
+  forallb (fun p => forallb (fun q =>
+    match upow a p, upow a q with
+    | Ok x, Ok y => match umul x y with Ok l => ok_eq (upow a (p + q)) l | _ => false end
+    | _, _ => false
+    end) prange) prange
+  && match umul a a with Ok aa => ok_eq (Units_sqrt aa) a | _ => false end
+  && match upow a 2 with Ok aa => ok_eq (Units___pow__ aa 1) a | _ => false end.
+
+Lemma B_named_count : List.length named_units_list = List.length named_table.
+Proof. vm_compute. reflexivity. Qed.
+Lemma B_pairs : forallb (fun a => forallb (pair_ok a) named_units_list) named_units_list = true.
+Proof. vm_compute. reflexivity. Qed.
+Lemma B_triples : forallb (fun a => forallb (fun b => forallb (triple_ok a b) distinct_units)
+                                      distinct_units) distinct_units = true.
+Proof. vm_compute. reflexivity. Qed.
+Lemma B_powers : forallb pow_ok named_units_list = true.
+Proof. vm_compute. reflexivity. Qed.
+
+Lemma B_pairs_all : forall a b, In a named_units_list -> In b named_units_list -> pair_ok a b = true.
+Proof.
+  intros a b Ia Ib. pose proof B_pairs as H. rewrite forallb_forall in H.
+  specialize (H a Ia). rewrite forallb_forall in H. exact (H b Ib).
+Qed.
+Lemma B_triples_all : forall a b c, In a named_units_list -> In b named_units_list ->
+  In c named_units_list -> triple_ok a b c = true.
+Proof.
+  intros a b c Ia Ib Ic. apply dedup_covers in Ia, Ib, Ic. fold distinct_units in Ia, Ib, Ic.
+  pose proof B_triples as H. rewrite forallb_forall in H.
+  specialize (H a Ia). rewrite forallb_forall in H. specialize (H b Ib).
+  rewrite forallb_forall in H. exact (H c Ic).
+Qed.
+Lemma B_powers_all : forall a, In a named_units_list -> pow_ok a = true.
+Proof. intros a Ia. pose proof B_powers as H. rewrite forallb_forall in H. exact (H a Ia). Qed.
